@@ -98,7 +98,7 @@ func newRef(budget int) *refEval {
 
 var refPrims = map[string]bool{"+": true, "-": true, "*": true, "/": true, "mod": true, "<": true, ">": true, "<=": true, ">=": true, "==": true, "!=": true,
 	"not": true, "concat": true, "append": true, "len": true, "first": true, "rest": true, "second": true, "cons": true, "list": true, "array": true, "aget": true, "aset": true,
-	"hget": true, "hset": true, "hdel": true, "keys": true, "map": true, "apply": true, "str": true, "force": true, "substitute": true, "hash": true}
+	"hget": true, "hset": true, "hdel": true, "keys": true, "map": true, "apply": true, "str": true, "force": true, "substitute": true, "hash": true, "func?": true}
 
 func rtruthy(v rval) bool {
 	switch x := v.(type) {
@@ -302,6 +302,10 @@ func (r *refEval) eval(n *Node, env *rframe) (rval, error) {
 	case "defn":
 		env.vars[n.S] = &rclos{fn: n, env: env, act: r.curAct()}
 		return rnil{}, nil
+	case "funcdecl":
+		c := &rclos{fn: n, env: env, act: r.curAct()}
+		env.vars[n.S] = c
+		return c, nil
 	case "call":
 		callee, err := r.eval(n.Kids[0], env)
 		if err != nil {
@@ -364,6 +368,13 @@ func (r *refEval) eval(n *Node, env *rframe) (rval, error) {
 			return nil, &rerr{"assert", "assertion failed"}
 		}
 		return rnil{}, nil
+	case "islazy":
+		v, err := r.eval(n.Kids[0], env)
+		if err != nil {
+			return nil, err
+		}
+		_, isThunk := v.(*rthunk)
+		return isThunk, nil
 	case "stop":
 		return nil, &rerr{"stop", n.S}
 	}
@@ -968,6 +979,8 @@ func (r *refEval) applyPrim(name string, args []rval) (rval, error) {
 			return strconv.Quote(t), nil
 		case rnil:
 			return "nil", nil
+		case rcode:
+			return t.n.Render(), nil
 		}
 		return nil, &rerr{"other", "str of this value is outside the reference language"}
 	case "map":
@@ -1014,6 +1027,15 @@ func (r *refEval) applyPrim(name string, args []rval) (rval, error) {
 			return r.applyValue(args[0], nil) // nil is the empty list
 		}
 		return nil, &rerr{"type", "apply"}
+	case "func?":
+		if err := argn(1); err != nil {
+			return nil, err
+		}
+		switch args[0].(type) {
+		case *rclos, rprim:
+			return true, nil
+		}
+		return false, nil
 	case "force":
 		if err := argn(1); err != nil {
 			return nil, err
